@@ -184,11 +184,23 @@ def run(tier, seed):
   runs = collections.defaultdict(dict)     # program id -> config name -> outputs
   hash_probes = collections.defaultdict(set)
   mon_records = []
+  results = []
   for res in pool.run_tasks(tasks):
     if not res.get("ok"):
       ck.child_failed(res, "run " + str(res.get("task")))
       continue
+    results.append(res)
+  # Runs are comparable only if they analysed with the same pytype sources: the checkout may be
+  # edited by somebody else while the check runs.  Keep the runs of the most common tree
+  # fingerprint (stable from start to end of the child); anything else is not judged.
+  fps = collections.Counter(r["result"]["tree_fp"][0] for r in results
+                            if r["result"]["tree_fp"][0] == r["result"]["tree_fp"][1])
+  main_fp = fps.most_common(1)[0][0] if fps else None
+  for res in results:
     r = res["result"]
+    if r["tree_fp"] != [main_fp, main_fp]:
+      ck.count("runs_not_judged_pytype_sources_changed_during_run", len(r["results"]))
+      continue
     cname = str(res["task"]).split("|", 1)[1]
     hash_probes[cfg_by_name[cname]["hashseed"]].add(r["hash_probe"])
     ck.count("recorded_runs", len(r["results"]))
@@ -247,6 +259,11 @@ def run(tier, seed):
       "the reused-Loader configuration passes one load_pytd.create_loader(options) object to io.generate_pyi for "
       "every program of the batch, with the same Options object",
   ]
+  ck.extra["pytype_tree_fingerprints_seen"] = len(fps) + sum(
+      1 for r in results if r["result"]["tree_fp"][0] != r["result"]["tree_fp"][1])
+  if ck.counters["runs_not_judged_pytype_sources_changed_during_run"]:
+    ck.inconclusive("the pytype checkout was modified while the check was running: "
+                    f"{ck.counters['runs_not_judged_pytype_sources_changed_during_run']} recorded runs were not judged")
   if ck.counters["recorded_runs"] == 0 or complete == 0:
     ck.inconclusive("no program was recorded under all configurations")
   if ck.extra["distinct_hash_functions_observed"] < 3:
